@@ -25,7 +25,7 @@ ENGINES = {
 ENGINES["range"] = dict(
     drv="range", starts=("rsetup",),
     trivial=r"^(rsetup .* => ok$)",
-    branches=["rsetup.ok", "rsetup.err", "rreq.new", "rreq.known", "rreq.exhausted", "rreq.maclen-other", "rrestart.ok"],
+    branches=["rsetup.ok", "rsetup.err", "rreq.new", "rreq.known", "rreq.exhausted", "rreq.maclen-other", "rrestart.ok", "rreq.key-rewritten-by-affinity"],
 )
 ENGINES["prefix"] = dict(
     drv="prefix", starts=("psetup",),
@@ -209,8 +209,8 @@ PROPS = {
     ),
     "C03": dict(
         engines=[("range", 2500, 40000)],
-        theorems=["C03_holds", "C03_restore", "C03_D7_prefix_refuted"],
-        modules=["CoreDhcp.Props.C03"],
+        theorems=["C03_holds", "C03_restore", "C03_D7_prefix_refuted", "C03_key_roundtrip", "C03_macString_injective", "C03_parse_macString", "C03_hkey_total", "C03_holds_concrete", "C03_restore_concrete"],
+        modules=["CoreDhcp.Props.C03", "CoreDhcp.Props.C03Key"],
         trusted_base=[TB_BITSET, TB_SQLITE, TB_CLOCK],
         assumptions=["a crash point is a point between two requests (the database file is copied there and the plugin started on the copy)",
                      "sqlite durability itself is not modelled"],
